@@ -1,6 +1,6 @@
 (* C01 — property theorems only (block mappings; modification mappings are not modelled). *)
 From Coq Require Import List Bool ZArith.
-From V Require Import C05.Model C01.Model C01.Proofs.
+From V Require Import C05.Model C01.Model C01.Proofs C01.ModMap C01.ModMapProofs.
 Import ListNotations.
 Open Scope Z_scope.
 
@@ -110,6 +110,22 @@ Proof.
     exists l1, p1, l2, p2, l3, x. auto.
 Qed.
 Print Assumptions overlap_warned.
+
+(* --- modification mappings --- *)
+(* the merge loop applies the block placements in their order and the modification placements in theirs ... *)
+Theorem merge_is_an_interleaving : forall fuel bs ms, (List.length bs + List.length ms <= fuel)%nat ->
+  blocks_of (merge_work fuel bs ms) = bs /\ mods_of_work (merge_work fuel bs ms) = ms.
+Proof. exact merge_interleaves. Qed.
+Print Assumptions merge_is_an_interleaving.
+
+(* ... and a modification placement comes before a block placement exactly when its key is below the block's lowest atom:
+   a modification that refers to existing particles (key = its highest atom) waits for every block that starts at or
+   below that atom. *)
+Theorem modification_waits_for_its_blocks : forall fuel bs ms, (List.length bs + List.length ms <= fuel)%nat ->
+  sorted_by min_key bs -> sorted_by (fun m => mod_key (fst m) (snd m)) ms ->
+  forall l1 M m2m l2 b l3, merge_work fuel bs ms = l1 ++ WMod M m2m :: l2 ++ WBlock b :: l3 -> mod_key M m2m < min_key b.
+Proof. exact merge_mod_before_block. Qed.
+Print Assumptions modification_waits_for_its_blocks.
 
 (* non-vacuity *)
 Definition ex_atom k r n := {| a_key := k; a_resid := r; a_name := n; a_resname := 1; a_isH := false; a_chain := 1 |}.
